@@ -58,13 +58,12 @@ Proof.
   rewrite Q. cbn [fst]. auto.
 Qed.
 Lemma st_enc s l n b : wf_tags l -> t_bytes s = enc l -> t_len s = zlen (enc l) -> wf_tag (n, b) ->
-  nonleading_nonemptyb l = true ->
   t_bytes (tags_of (set_tag s n b)) = enc (spec_set l n b) /\
   t_len (tags_of (set_tag s n b)) = zlen (enc (spec_set l n b)).
 Proof.
-  intros Hwf Hb Hl Hw Hn.
-  destruct (set_tag_enc s l n b Hwf Hb Hl Hw) as (s' & r & l' & S & W & B & L & N).
-  destruct (N Hn) as [E _]. subst l'. rewrite S. cbn [tags_of]. auto.
+  intros Hwf Hb Hl Hw.
+  destruct (set_tag_enc s l n b Hwf Hb Hl Hw) as (s' & S & B & L).
+  rewrite S. cbn [tags_of]. auto.
 Qed.
 
 Lemma wf_ssid ssid : ssid_ok ssid -> wf_tag (c_TAG_SSID, ssid).
@@ -83,18 +82,18 @@ Lemma set_ssid_chan_enc ssid ch : ssid_ok ssid -> u8 ch ->
   t_len (set_ssid_chan ssid ch) = zlen (enc [(T_SSID, ssid); (T_DS, [ch])]).
 Proof.
   intros Hs Hc. unfold set_ssid_chan, set_channel, set_ssid.
-  destruct (st_enc tags_empty [] c_TAG_SSID ssid ltac:(constructor) eq_refl eq_refl (wf_ssid ssid Hs) eq_refl)
+  destruct (st_enc tags_empty [] c_TAG_SSID ssid ltac:(constructor) eq_refl eq_refl (wf_ssid ssid Hs))
     as [B1 L1].
   assert (W1 : wf_tags (spec_set [] c_TAG_SSID ssid)).
   { constructor; [apply wf_ssid; exact Hs | constructor]. }
-  exact (st_enc _ _ c_TAG_DS_PARAMETER [ch] W1 B1 L1 (wf_channel ch Hc) eq_refl).
+  exact (st_enc _ _ c_TAG_DS_PARAMETER [ch] W1 B1 L1 (wf_channel ch Hc)).
 Qed.
 Lemma chan_enc ch : u8 ch ->
   t_bytes (tags_of (set_channel tags_empty ch)) = enc [(T_DS, [ch])] /\
   t_len (tags_of (set_channel tags_empty ch)) = zlen (enc [(T_DS, [ch])]).
 Proof.
   intros Hc. unfold set_channel.
-  exact (st_enc tags_empty [] c_TAG_DS_PARAMETER [ch] ltac:(constructor) eq_refl eq_refl (wf_channel ch Hc) eq_refl).
+  exact (st_enc tags_empty [] c_TAG_DS_PARAMETER [ch] ltac:(constructor) eq_refl eq_refl (wf_channel ch Hc)).
 Qed.
 
 Lemma with_extras_enc : forall extras g l, wf_tags extras ->
